@@ -3,7 +3,7 @@
 P = 'Snowflake.Props.C17'
 T = 'Snowflake.Tie.Turbotunnel'
 SPEC = {'id': 'C17',
- 'modules': [P, T],
+ 'modules': [P, 'Snowflake.Props.C17Sweep', T],
  'theorems': [(P, 'Snowflake.C17.' + n) for n in [
      # (a) container/heap
      'heap_push', 'heap_pop', 'heap_remove', 'heap_fix', 'heap_init', 'heap_bookkeeping', 'heap_index_bookkeeping',
@@ -18,7 +18,10 @@ SPEC = {'id': 'C17',
      'no_retained_goroutine', 'rank_zero_finished',
      # negative witnesses for the pinned (unbuffered) error channels
      'pinned_reader_leak_write_first', 'pinned_reader_leak_at_close', 'pinned_writer_leak_read_first',
-     'pinned_leak_per_redial']],
+     'pinned_leak_per_redial']]
+             # WriteTo against the expiry sweep (F18): any number of writers / sweeps / clock steps
+             + [('Snowflake.Props.C17Sweep', 'Snowflake.C17Sweep.' + n) for n in
+                ['repaired_never_panics', 'repaired_record_open', 'pinned_write_can_panic']],
  'ties': [(T, 'Snowflake.Tie.Turbotunnel.' + n) for n in [
      'queueSize_tie', 'guard_tie', 'less_tie', 'queue_capacities', 'queueIncoming_shape', 'queueWriteTo_shape', 'trySend_shape',
      'queueReadFrom_shape', 'closeWithError_shape', 'outgoingQueue_shape', 'clientMap_shape', 'dialLoop_shape', 'redialApi_shape',
@@ -47,7 +50,11 @@ SPEC = {'id': 'C17',
                'closed carrier is ever blocked and both finish within 8 own steps; for capacity 0 kernel-checked '
                'schedules leave a goroutine blocked in every continuation). The capacities, queueSize, Less and the '
                'removeExpired guard are regenerated from the source and tied; skeleton obligations pin the select / '
-               'close-once / copy-before-send structure.',
+               'close-once / copy-before-send structure. WriteTo against the periodic sweep (F18) has its own interleaving model '
+               '(Model/QueueSweep: any number of writers, sweeps and clock steps; queue generations): with look-up and send in '
+               'one critical section (ClientMap.trySend, pinned by trySend_shape) no schedule ever sends on a closed queue and '
+               'the queue recorded for an address is never a closed one; the pinned shape (send after the lock) has a '
+               'kernel-checked schedule that does, for every timeout.',
  'level_note': 'Trusted: Lean kernel; translator (time.Time/Duration as integers: Before = <, Sub = -); the '
                'hand-written transcription of container/heap (int as Nat: the j1 < 0 overflow test of down is dropped) '
                'and of the Swap/Push/Pop hooks (validated differentially: exact heap layout after every operation); Go '
@@ -62,3 +69,7 @@ SPEC = {'id': 'C17',
 
 SPEC['rule'] += (' Added after the seeded-change rounds: ' +
     'Populations of 300 and more clients expiring together; retention measured on the real clock after Close of the queue connection; concurrent enqueue from many goroutines; a redial connection whose write fails while the send queue is full (the writer must not block re-queueing).')
+
+
+SPEC['rule'] += (' Added with F18: a child process (GOMAXPROCS=2) in which 200 goroutines WriteTo three client addresses of a queue connection '
+    'with a 50 us client timeout for 2.5 s while the sweep expires their queues: every WriteTo must return (a dying child = send on closed channel).')
